@@ -185,6 +185,72 @@ func runConcMembers(c *CCase) {
 	c.Mem = m
 }
 
+// A full table, one caller swapping a member by batch update (one leaves, one joins), the others reserving for newcomers:
+// in every one-at-a-time order the update succeeds and every reservation is refused (no empty seat before it, none after it).
+// Many rounds are run on the same table; the round reported is the first whose results are not those (or the last one).
+func runConcSwap(c *CCase) {
+	r := NewRNG(c.Seed)
+	set := mkSetting(fmt.Sprintf("swap-%d", c.Index), "default", "ct", c.Max, 2, 0, 0, 10, 20, 1, 10)
+	d, err := NewDrv(set, 0)
+	if err != nil {
+		c.Note = "create failed"
+		return
+	}
+	for i := 0; i < c.Max; i++ {
+		d.te.PlayerReserve(pt.JoinPlayer{PlayerID: pid(i + 1), RedeemChips: int64(100 + r.Intn(900)), Seat: -1})
+	}
+	d.Quiesce(quiesceLimit)
+	next := 50
+	var m *CMem
+	for round := 0; round < 150; round++ {
+		m = &CMem{Pre: d.Abs()}
+		if len(m.Pre.Players) != c.Max {
+			break
+		}
+		leaver := m.Pre.Players[r.Intn(len(m.Pre.Players))].ID
+		m.Ops = append(m.Ops, TMOp{Kind: "update", Joins: []TMJoin{{ID: next, Chips: int64(1 + r.Intn(500)), Seat: -1}}, IDs: []int{leaver}})
+		next++
+		for i := 1; i < c.N; i++ {
+			m.Ops = append(m.Ops, TMOp{Kind: "reserve", Join: &TMJoin{ID: next, Chips: int64(1 + r.Intn(500)), Seat: -1}})
+			next++
+		}
+		r.Shuffle(len(m.Ops), func(i, j int) { m.Ops[i], m.Ops[j] = m.Ops[j], m.Ops[i] })
+		m.Res = make([]string, len(m.Ops))
+		burst(len(m.Ops), func(i int) {
+			res, _ := d.applyTM(&m.Ops[i])
+			m.Res[i] = res
+		})
+		d.Quiesce(quiesceLimit)
+		m.Post = d.Abs()
+		odd := false
+		for i := range m.Ops {
+			op := &m.Ops[i]
+			var want []int
+			if op.Kind == "reserve" {
+				want = []int{op.Join.ID}
+				odd = odd || m.Res[i] == "ok"
+			} else {
+				want = []int{op.Joins[0].ID}
+				odd = odd || m.Res[i] != "ok"
+			}
+			op.Drawn = []int{}
+			for _, id := range want {
+				seat := -1
+				for s, p := range m.Post.SM.Seats {
+					if p != nil && p.ID == id {
+						seat = s
+					}
+				}
+				op.Drawn = append(op.Drawn, seat)
+			}
+		}
+		if odd {
+			break
+		}
+	}
+	c.Mem = m
+}
+
 func runConcSeats(c *CCase) {
 	r := NewRNG(c.Seed)
 	mgr := sm.NewSeatManager(c.Max, "default")
@@ -365,6 +431,14 @@ func genConc(root *RNG, i int, seed uint64, mode string) CCase {
 		c.Kind = mode
 	}
 	c.N = 2 + r.Intn(5) // small bursts: every order of the operations can be tried by the model
+	if mode == "swap" {
+		c.Max = 2 + r.Intn(5)
+		c.N = 3 + r.Intn(4)
+		if r.Chance(1, 2) {
+			c.N = 8 + r.Intn(8) // callers queueing on the mutex
+		}
+		return c
+	}
 	if mode == "big" || r.Chance(1, 4) {
 		c.N = 8 + r.Intn(40) // beyond the core count
 	}
@@ -404,6 +478,8 @@ func runConc(opt Opts) error {
 			switch cp.Kind {
 			case "members":
 				runConcMembers(&cp)
+			case "swap":
+				runConcSwap(&cp)
 			case "seats":
 				runConcSeats(&cp)
 			default:
